@@ -122,3 +122,16 @@ func fmtRats(rs []*big.Rat) string {
 func fmtErr(res core.Result) string {
 	return fmt.Sprintf("class=%s exit=%d stderr=%q", res.Class, res.Exit, core.Trunc(string(res.Stderr), 400))
 }
+
+// guard runs a call into the code under test in-process and turns a panic of
+// that code into a value (a panic of the code under test is a verdict, not a
+// harness failure).
+func guard(f func()) (panicked any) {
+	defer func() {
+		if r := recover(); r != nil {
+			panicked = fmt.Sprint(r)
+		}
+	}()
+	f()
+	return nil
+}
